@@ -46,6 +46,7 @@ struct Task {
   EhGlobals eh{nullptr, 0};
   void *fake_stack = nullptr;
   bool started = false;
+  int in_harness = 0;
 };
 
 struct Proc { bool alive = true; bool ended = false; };
@@ -70,6 +71,9 @@ class World {
   std::function<void(int, long)> on_point;
   std::function<void(int, const std::string &)> on_uncaught;
   bool finished = false;
+  bool in_sched = false;   // inside the scheduler's own bookkeeping: its allocations are not decision points
+  long alloc_stride = 0, alloc_offset = 0, alloc_count = 0, alloc_taken = 0;
+  std::function<bool()> alloc_gate;
 };
 
 static World *W = nullptr;
@@ -126,6 +130,7 @@ const char *kind_name(int k) {
     case K_FCLOSE: return "fclose";
     case K_WRITE: return "write";
     case K_READ: return "read";
+    case K_ALLOC: return "alloc";
     default: break;
   }
   static thread_local char buf[16];
@@ -210,6 +215,7 @@ static void switch_to(Task *next) {
 }
 
 [[noreturn]] static void back_to_main() {
+  W->in_sched = false;
   switch_to(&W->mainctx);
   harness_error("a finished task was resumed");
 }
@@ -233,6 +239,7 @@ static int default_choice(const std::vector<int> &runnable) {
 
 // the only place where a scheduling choice is made
 static void decide(int kind, long obj) {
+  W->in_sched = true;
   for (;;) {
     std::vector<int> runnable;
     int blocked = 0;
@@ -316,6 +323,7 @@ static void decide(int kind, long obj) {
       snprintf(b + (n < 190 ? n : 190), 10, "}->t%d", chosen);
       r.trace.emplace_back(b);
     }
+    W->in_sched = false;
     switch_to(W->tasks[chosen]);
     return;
   }
@@ -323,7 +331,7 @@ static void decide(int kind, long obj) {
 
 void point(int kind, long obj) {
   if (!active()) return;
-  if (W->on_point) W->on_point(kind, obj);
+  if (W->on_point) { bool was = W->in_sched; W->in_sched = true; W->on_point(kind, obj); W->in_sched = was; }
   decide(kind, obj);
 }
 
@@ -336,6 +344,32 @@ void abort_run(const std::string &cls, const std::string &detail) {
   W->res.outcome = RUN_ABORTED;
   if (W->current == &W->mainctx) harness_error("abort_run from the scheduler context");
   back_to_main();
+}
+
+void set_alloc_points(long stride, long offset, const std::function<bool()> &gate) {
+  if (!W) return;
+  W->alloc_stride = stride;
+  W->alloc_offset = stride > 0 ? offset % stride : 0;
+  W->alloc_gate = gate;
+}
+long alloc_points_taken() { return W ? W->alloc_taken : 0; }
+void alloc_point() {
+  if (!W || W->alloc_stride <= 0 || W->finished || W->in_sched || W->current == &W->mainctx) return;
+  if (W->current->in_harness > 0) return;
+  W->in_sched = true;  // the gate and the bookkeeping may allocate
+  bool ok = !W->alloc_gate || W->alloc_gate();
+  bool take = ok && (W->alloc_count++ % W->alloc_stride) == W->alloc_offset;
+  W->in_sched = false;
+  if (!take) return;
+  W->alloc_taken++;
+  point(K_ALLOC, 0);
+}
+
+Harness::Harness() : task(-1) {
+  if (W && !W->finished && W->current != &W->mainctx) { task = W->current->id; W->current->in_harness++; }
+}
+Harness::~Harness() {
+  if (task >= 0 && W && task < (int)W->tasks.size() && W->tasks[task]->in_harness > 0) W->tasks[task]->in_harness--;
 }
 
 void set_phase(int phase) { if (active()) W->current->phase = phase; }
@@ -370,6 +404,7 @@ static void trampoline() {
   g->uncaught = 0;
   errno = 0;
   t->started = true;
+  t->in_harness = 0;
   record(K_START, t->id, 0);
   std::string what;
   bool threw = false;
@@ -386,6 +421,7 @@ static void trampoline() {
     // an exception leaving a thread function is std::terminate: the whole
     // (simulated) process dies
     record(K_EXIT, t->id, 2);
+    t->in_harness++;
     if (W->on_uncaught) W->on_uncaught(t->id, what);
     kill_process(t->proc);
   }
@@ -438,9 +474,11 @@ void kill_process(int proc) {
     return;
   }
   W->procs[proc].alive = false;
+  if (W->current != &W->mainctx) W->current->in_harness++;   // everything from here on is harness code (the task never returns to the code under test if it dies)
   for (Task *t : W->tasks)
     if (t->proc == proc && t->state != T_DONE) finish_task(t, T_DEAD);
   if (W->on_proc_death) W->on_proc_death(proc);
+  if (W->current != &W->mainctx && W->current->proc != proc) W->current->in_harness--;
   if (W->current != &W->mainctx && W->current->proc == proc) {
     decide(K_EXIT, W->current->id);
     harness_error("a dead task was resumed");
@@ -449,6 +487,7 @@ void kill_process(int proc) {
 
 void exit_task() {
   Task *t = W->current;
+  t->in_harness++;
   if (t->state != T_DEAD) {
     record(K_EXIT, t->id, 0);
     finish_task(t, T_DONE);
